@@ -31,6 +31,7 @@
    cells are modelled as cells.  Ghost: pycount, icount, ist, bad, zeros. *)
 From Coq Require Import Arith List Bool Lia.
 Import ListNotations.
+From Cffi Require Import C28.Gen.
 
 Inductive pc :=
 | PCall | PSpin | PGilTest | PGilInit | PGilRelease | PCas1 | PMTest | PMInit | PCas2 | PLock
@@ -120,7 +121,14 @@ Definition lstart (x : libstate) := mklib (cas x) (ready x) (called x) true (swi
 Definition lok (x : libstate) := mklib (cas x) (ready x) (called x) (org x) true DoneOk (icount x) (mcount x).
 Definition lfail (x : libstate) := mklib (cas x) (ready x) (called x) false (switched x) DoneFail (icount x) (mcount x).
 
-Definition step (s : state) (tc : nat * choice) : state :=
+Definition lok_noswitch (x : libstate) := mklib (cas x) (ready x) (called x) (org x) (switched x) DoneOk (icount x) (mcount x).
+Definition lswitch (x : libstate) := mklib (cas x) (ready x) (called x) (org x) true (ist x) (icount x) (mcount x).
+
+(* [sw] = where _cffi_start_python switches _cffi_call_python to the fast path:
+     true   inside "if (!called) { ... if (_cffi_initialize_python() == 0) { HERE } ... }"   (the code as it is)
+     false  after that block, under "if (_cffi_call_python_org != NULL)", before the mutex is released
+   The position is read from the source on every run (C28/Gen.v, gen_switch_in_success). *)
+Definition step_gen (sw : bool) (s : state) (tc : nat * choice) : state :=
   let (t, c) := tc in
   if negb (t <? nthr s) then s else
   match stacks s t with
@@ -156,9 +164,10 @@ Definition step (s : state) (tc : nat * choice) : state :=
           | COk => go PInitOk
           | CFail => go PInitFail
           end
-      | PInitOk => set_stack (set_lib s l (lok L)) t ((l, PRel) :: rest)
+      | PInitOk => set_stack (set_lib s l (if sw then lok L else lok_noswitch L)) t ((l, PRel) :: rest)
       | PInitFail => set_stack (set_lib s l (lfail L)) t ((l, PRel) :: rest)
-      | PRel => go PRet
+      | PRel => if sw then go PRet
+                else set_stack (set_lib s l (if org L then lswitch L else L)) t ((l, PRet) :: rest)
       | PRet => if org L then enter_py s t l rest else set_stack (add_zero s l) t rest
       | PInPy =>
           match c with
@@ -167,6 +176,8 @@ Definition step (s : state) (tc : nat * choice) : state :=
           end
       end
   end.
+
+Definition step := step_gen gen_switch_in_success.
 
 Definition run (n : nat) (sched : list (nat * choice)) : state := fold_left step sched (init n).
 
